@@ -148,6 +148,17 @@ def cases(tier, seed, focus=None):
                     "mat": {"kind": "outliers", "m": m, "n": rt.randint(1, 5), "seed": rt.randrange(10**6), "dtype": dtype, "b": b,
                             "big": 10.0 ** rt.uniform(17, 30) if dtype == "float32" else 10.0 ** rt.uniform(20, 200), "scale": 1.0},
                     "perms": "all" if m <= 5 else [rt.sample(range(m), m) for _ in range(24)], "seed": rt.randrange(10**6)})
+    # the same on TALL matrices (generation 7: a sum-minus-extremes 'fast path' taken only above a row-count threshold makes
+    # the result depend on the order in which the rows, outliers included, are summed); outliers here are 1e4..1e9 x the rest
+    rt2 = random.Random(10030000 + seed)
+    for j in range(8 if tier == "quick" else 80):
+        b = rt2.choice([1, 1, 2])
+        m = rt2.choice([18, 20, 33, 40])
+        dtype = "float32" if j % 2 else "float64"
+        out.append({"agg": {"name": "TrimmedMean", "b": b},
+                    "mat": {"kind": "outliers", "m": m, "n": rt2.randint(1, 5), "seed": rt2.randrange(10**6), "dtype": dtype, "b": b,
+                            "big": 10.0 ** rt2.uniform(4, 9) if dtype == "float32" else 10.0 ** rt2.uniform(8, 14), "scale": 1.0},
+                    "perms": [rt2.sample(range(m), m) for _ in range(24)], "seed": rt2.randrange(10**6)})
     return out
 
 
